@@ -362,6 +362,13 @@ def discharge(ob: Obl, ctx, ax, hyps, goal, short=False, heavy=()) -> dict:
                 r2, backend2 = other_backends(s)
                 if r2 is not None:
                     r, backend = r2, backend2
+                else:
+                    # last attempt with a generous budget (verdicts must not flip when the machine is busy)
+                    s3 = _solver(ctx, ax, hy2, [ng], seed=3, timeout=6 * TIMEOUT_MS)
+                    r = s3.check()
+                    backend = "z3-5.1(api,retry2)"
+                    if r != z3.unknown:
+                        s = s3
             else:
                 s = s2
         if r == z3.unsat or r == "unsat":
